@@ -150,7 +150,20 @@ def sort(p):
     return mk('seq_sort', sig, pre, body)
 
 
-FAMILIES = {'seqop': seqop, 'sort': sort}
+def distinct_long(p):
+    """distinct on a key with many different values (m concrete ones 0..m-1, then two solver-chosen values in 0..m): first occurrences only"""
+    m = p['m']
+
+    def body(a):
+        x = a[0]
+        items = list(range(m)) + [x, m - 1, x]
+        got = D.run_mux(items, [rs.ops.distinct()])
+        exp = _first_occ(items)
+        return got == exp or fail(op='distinct', different_values=m, items=items[-4:], observed=got[-4:], expected=exp[-4:])
+    return mk('distinct_long', [('x', 'int')], ['0 <= x <= %d' % m], body)
+
+
+FAMILIES = {'seqop': seqop, 'sort': sort, 'distinct_long': distinct_long}
 
 
 def obligations(tier, seed):
@@ -201,6 +214,8 @@ def obligations(tier, seed):
         for n in ((3, ng) if op != 'distinct' else (3,)):
             obs.append(Ob(PROP, 'seqop', dict(op=op, n=n, mode='group', arg=arg, opt=False), budget=b, group='seqop_group:' + op,
                           bound=dict(items=n, groups=2, values='ints' if op != 'distinct' else 'ints 0..2', arg=arg, mode='group_by')))
+    for m in ((9, 17) if q else (9, 17, 33, 70)):
+        obs.append(Ob(PROP, 'distinct_long', dict(m=m), budget=b * 2, group='distinct_long', bound=dict(different_values=m, symbolic='a further item in 0..%d, repeated' % m)))
     for n in range(0, (3 if q else 4) + 1):
         obs.append(Ob(PROP, 'sort', dict(n=n), budget=b, bound=dict(items=n, keys='0..2')))
         if n >= 2:
